@@ -57,7 +57,8 @@ pub(crate) fn read<V: MultiClassVisitor>(reader: &mut impl ClassRead, visitor: V
 	let major = reader.read_u16()?;
 	let version = Version::new(major, minor);
 
-	if version > Version::V23 {
+	// The minor version is either zero or marks the use of preview features (65535) for these major versions.
+	if version.major > Version::V23.major {
 		bail!("unsupported class file version: {version:?}");
 	}
 
